@@ -64,32 +64,31 @@ Print Assumptions C12_panic_before_write_gets_500.
 
 (* A handler that writes (headers, WriteHeader s, any number of Writes and Flushes: [wop]) and
    returns a status below 400, with or without an error: the client receives status s and the
-   concatenated chunks [wbody ws], ungarbled, the header committed exactly once — for every
+   concatenated chunks [wbody ws], ungarbled, the header committed exactly once — for EVERY
    subset of the directives, whether templates streams the response, buffers and passes it on
    (the handler returned 300..399, as browse does for its redirect, or an error) or buffers
    and executes it (then the body must not contain a template action, which is what templates
-   is there to replace); a Flush while templates buffers sends nothing
-   — provided not (`errors visible` and err): see the _refuted theorem. *)
-Theorem C12_written_response_unaltered_partial :
+   is there to replace); a Flush while templates buffers sends nothing; `errors visible`
+   logs the error of a handler that has answered instead of writing it into the response. *)
+Theorem C12_written_response_unaltered :
   forall et c path ae sets s ws ret err,
   forallb set_ok sets = true -> status_rule c path = None ->
   valid_code s = true -> bodyless s = false -> ret < 400 ->
   (should_buffer (tmode_of c path) (hs_fun sets []) = true -> ret < 300 -> err = false ->
    contains (wbody ws) TPL_OPEN = false) ->
-  (err = false \/ eff_errors c <> EDebug) ->
   let x := serve et c path ae (sets ++ OWh s :: map wop_op ws) ret err in
   cm x = Some s /\ sup x = 0%nat /\ view x = (false, wbody ws).
 Proof.
-  intros et c path ae sets s ws ret err Hs Hr Hv Hb Hret Htpl He.
+  intros et c path ae sets s ws ret err Hs Hr Hv Hb Hret Htpl.
   destruct (should_buffer (tmode_of c path) (hs_fun sets [])) eqn:A.
-  - exact (written_buffered et c path ae sets s ws ret err Hs Hr Hv Hb Hret He A (Htpl eq_refl)).
-  - exact (written_streamed et c path ae sets s ws ret err Hs Hr Hv Hb Hret He A).
+  - exact (written_buffered et c path ae sets s ws ret err Hs Hr Hv Hb Hret A (Htpl eq_refl)).
+  - exact (written_streamed et c path ae sets s ws ret err Hs Hr Hv Hb Hret A).
 Qed.
-Print Assumptions C12_written_response_unaltered_partial.
+Print Assumptions C12_written_response_unaltered.
 
-Example C12_written_response_unaltered_partial_nonvacuous :
+Example C12_written_response_unaltered_nonvacuous :
   let c := {| c_reqid := false; c_limits := false; c_log := true; c_rewrite := false; c_gzip := true; c_header := true;
-              c_errors := EPlain; c_status := None; c_mime := false; c_templates := true |} in
+              c_errors := EDebug; c_status := None; c_mime := false; c_templates := true |} in
   should_buffer (tmode_of c (bs "/x.html")) (hs_fun [] []) = true /\
   contains (wbody [WWr (bs "he"); WFl; WWr (bs "llo")]) TPL_OPEN = false /\
   (let x := serve (fun _ => []) c (bs "/x.html") true ([] ++ OWh 404 :: map wop_op [WWr (bs "he"); WFl; WWr (bs "llo")]) 0 false in
@@ -97,27 +96,10 @@ Example C12_written_response_unaltered_partial_nonvacuous :
   (* browse's redirect behind templates (DESIGN A17) *)
   (let x := serve (fun _ => []) c (bs "/x.html") true ([] ++ OWh 301 :: map wop_op [WWr (bs "Moved")]) 301 false in
    cm x = Some 301 /\ view x = (false, bs "Moved")) /\
-  (* a handler that fails after writing *)
+  (* a handler that fails after writing, under errors visible *)
   (let x := serve (fun _ => []) c (bs "/x.html") true ([] ++ OWh 404 :: map wop_op [WWr (bs "custom")]) 0 true in
    cm x = Some 404 /\ view x = (false, bs "custom")).
 Proof. vm_compute. repeat split; reflexivity. Qed.
-
-(* The unrestricted clause is false: under `errors visible` a handler that wrote its response
-   and returns (0, err) gets the error text appended to its body by a second WriteHeader. *)
-Theorem C12_written_response_unaltered_refuted :
-  exists et c path ae sets s ws ret err,
-  forallb set_ok sets = true /\ status_rule c path = None /\ valid_code s = true /\ bodyless s = false /\
-  ret < 400 /\
-  let x := serve et c path ae (sets ++ OWh s :: map wop_op ws) ret err in
-  cm x = Some s /\ sup x = 1%nat /\ view x <> (false, wbody ws).
-Proof.
-  exists (fun _ => []),
-    {| c_reqid := false; c_limits := false; c_log := false; c_rewrite := false; c_gzip := false; c_header := false;
-       c_errors := EDebug; c_status := None; c_mime := false; c_templates := false |},
-    (bs "/x.txt"), false, [], 200, [WWr (bs "a")], 0, true.
-  vm_compute. repeat split; try reflexivity; try discriminate.
-Qed.
-Print Assumptions C12_written_response_unaltered_refuted.
 
 (* request_id, limits and mime never change the response. *)
 Theorem C12_transparent_directives :
